@@ -32,6 +32,13 @@ ENTRIES = [
  ("revert-f071c84-divert-cycle",         ("revert", "f071c84"), ["C18"], []),
  ("revert-180b321-cli-json-escape",      ("revert", "180b321"), ["C20"], []),
  ("revert-75f8203-stream-loader",        ("revert", "75f8203"), ["C15"], []),
+ ("revert-cffc8c0-random-range-overflow", ("revert", "cffc8c0"), ["C04"], []),
+ ("revert-3ab7dff-origins-order",        ("revert", "3ab7dff"), ["C03"], []),
+ # found by the thorough tier only (1 case in 120 000 / 400 000): the quick tier finds their return through the
+ # recorded cases (regress/), so these three run with the recorded cases enabled
+ ("revert-8fa4474-literal-origins",      ("revert", "8fa4474"), ["C02"], [], {"pinned": True}),
+ ("revert-db77fc3-empty-list-vs-default",("revert", "db77fc3"), ["C02"], [], {"pinned": True}),
+ ("revert-b0a1f02-operand-missing",      ("revert", "b0a1f02"), ["C04"], [], {"pinned": True}),
  # hand-written mutations (files under patches/)
 ]
 for f in sorted(os.listdir(os.path.join(HERE, "patches"))):
@@ -61,7 +68,8 @@ def main():
     assert clean_tree(), "commit or stash changes in /repo first"
     results = []
     try:
-        for name, how, must_fail, must_pass in ENTRIES:
+        for name, how, must_fail, must_pass, *rest in ENTRIES:
+            opts = rest[0] if rest else {}
             if sel and name not in sel:
                 continue
             ok, msg = apply(how)
@@ -75,7 +83,9 @@ def main():
                 shutil.rmtree(OUT, ignore_errors=True)
                 os.makedirs(OUT)
                 t0 = time.time()
-                r = sh(f"cd /verif && VERIF_OUT={OUT} ./check {pid} --tier quick")
+                # the sampler alone: recorded cases (regress/) are left out, or a reverted repair would be found trivially
+                nop = "" if opts.get("pinned") else "VERIF_NO_PINNED=1 "
+                r = sh(f"cd /verif && {nop}VERIF_OUT={OUT} ./check {pid} --tier quick")
                 viol = [l for l in r.stdout.splitlines() if l.startswith("VIOLATION")]
                 classes = [l.strip() for l in r.stdout.splitlines() if l.startswith("  violation class=")][:3]
                 replay_ok = None
@@ -83,7 +93,12 @@ def main():
                     path = viol[0].split("replay=")[1]
                     rr = sh(f"cd /verif && VERIF_OUT={OUT} ./check {pid} --replay {path}")
                     replay_ok = rr.returncode == 1
-                row["checks"][pid] = {"expected_exit": expect, "exit": r.returncode, "violations": len(viol), "first": classes, "replay_reproduces": replay_ok, "wall_s": round(time.time() - t0, 1)}
+                    if replay_ok and expect == 1 and os.environ.get("HARVEST"):
+                        # keep the minimised schedules as recorded cases (one per reported violation, at most 3)
+                        os.makedirs(f"/verif/regress/{pid}", exist_ok=True)
+                        for k, v in enumerate(viol[:3]):
+                            shutil.copy(v.split("replay=")[1], f"/verif/regress/{pid}/{name}-{k}.json")
+                row["checks"][pid] = {"expected_exit": expect, "exit": r.returncode, "violations": len(viol), "first": classes, "replay_reproduces": replay_ok, "wall_s": round(time.time() - t0, 1), "recorded_cases": bool(opts.get("pinned"))}
                 verdict = "OK" if r.returncode == expect and (expect == 0 or replay_ok) else "MISMATCH"
                 print(f"{name}: {pid} exit={r.returncode} expected={expect} {verdict} {classes[:1]}")
             results.append(row)
